@@ -39,6 +39,8 @@ func RenderTime(s string, now time.Time) string {
 		return base + fr + "+00:00"
 	case "offset2":
 		return t.Add(2*time.Hour).Format("2006-01-02T15:04:05") + fr + "+02:00"
+	case "offsetneg":
+		return t.Add(-5*time.Hour).Format("2006-01-02T15:04:05") + fr + "-05:00"
 	case "nozone":
 		return base + fr
 	case "dateonly":
